@@ -72,7 +72,8 @@ def check(tier):
             return json.loads(lines[s])["scenario"]
         for l, f in r["result"]["viol"]:
             sc = scen(l)
-            sig = dict(formula=f, how=sc["how"], handlers=sc["handlers"], landing=sc["landing"], subs=sc["subs"])
+            sig = dict(formula=f, how=sc["how"], handlers=sc["handlers"], landing=sc["landing"], subs=sc["subs"],
+                       detach=sc.get("detach", False))
             rep.violation(sig, dict(kind="dispose", property=PROP, formula=f, scenario=sc),
                           "%s in scenario %s: %s" % (f, sc, lines[l - 1][:300]))
         for l, f in r["result"]["drift"]:
